@@ -333,3 +333,158 @@ func delOrderRule(c *Ctx) int {
 		fmt.Sprintf("%d stores to h.Extensions; none has the order-preserving shift form", nStores))
 	return 1
 }
+
+
+// c04Hooks: Packet.MarshalTo never writes at or beyond the count it returns. The total is the
+// left operand of the size guard `total > len(buf)`; a write into buf, or into a slice cut from it,
+// at offset o is at absolute position (cap(buf) - cap(slice)) + o, since cutting a slice at its low
+// end reduces the capacity by the amount skipped. Decided by entailment for every store; for Header.MarshalTo the
+// same bound needs the MarshalSize/MarshalTo sum agreement and is covered by SIBLING.size instead.
+func c04Hooks(c *Ctx) *bounds.Hooks {
+	p := c.Prog
+	fn := p.Func("rtp.(*Packet).MarshalTo")
+	if fn == nil || len(fn.Params) < 2 {
+		return nil
+	}
+	buf := fn.Params[1]
+	var total ssa.Value
+	for _, b := range fn.Blocks {
+		for _, in := range b.Instrs {
+			cmp, ok := in.(*ssa.BinOp)
+			if !ok {
+				continue
+			}
+			isLenBuf := func(v ssa.Value) bool {
+				lc, ok := v.(*ssa.Call)
+				return ok && core.BuiltinName(lc) == "len" && lc.Call.Args[0] == ssa.Value(buf)
+			}
+			switch {
+			case cmp.Op == token.GTR && isLenBuf(cmp.Y):
+				total = cmp.X
+			case cmp.Op == token.LSS && isLenBuf(cmp.X):
+				total = cmp.Y
+			}
+		}
+	}
+	if total == nil {
+		return nil
+	}
+	return &bounds.Hooks{AtInstr: func(h *bounds.Helper, f *ssa.Function, in ssa.Instruction, d *bounds.Disjunct) {
+		if f != fn || h.Depth() != 0 {
+			return
+		}
+		st, ok := in.(*ssa.Store)
+		if !ok {
+			return
+		}
+		ia, ok := st.Addr.(*ssa.IndexAddr)
+		if !ok {
+			return
+		}
+		// the indexed slice must be cut from buf
+		root := ia.X
+		for {
+			if sl, ok := root.(*ssa.Slice); ok {
+				root = sl.X
+				continue
+			}
+			break
+		}
+		if root != ssa.Value(buf) || !d.Has(total) {
+			return
+		}
+		cb, cs, idx, tot := d.Cap(buf), d.Cap(ia.X), d.Int(ia.Index), d.Int(total)
+		if cb == nil || cs == nil || idx == nil || tot == nil {
+			return
+		}
+		abs := cb.Sub(cs).Add(idx)
+		q := lin.LT(abs, tot)
+		h.Oblige("write stays below the returned count", d.Entails(q), "a destination byte at or beyond header+payload+padding may be written: "+d.Describe(q))
+	}}
+}
+
+
+// lenFieldRule: in Header.MarshalTo every success return that is reached after the extension
+// profile has been written also has the 16-bit extension length written (by the function itself or
+// by a helper it calls): an early return between the two leaves two destination octets with whatever
+// the buffer held before.
+func lenFieldRule(c *Ctx) int {
+	p, r := c.Prog, c.R
+	fn := p.Func("rtp.(Header).MarshalTo")
+	if fn == nil {
+		return 0
+	}
+	isPut16 := func(in ssa.Instruction) bool {
+		call, ok := in.(*ssa.Call)
+		return ok && core.CalleeFullName(call) == "(encoding/binary.bigEndian).PutUint16"
+	}
+	writesLen := func(in ssa.Instruction) bool {
+		call, ok := in.(*ssa.Call)
+		if !ok {
+			return false
+		}
+		if isPut16(call) {
+			return loadedField(call.Call.Args[2]) != "ExtensionProfile" && fieldOfValueName(call.Call.Args[2]) != "ExtensionProfile"
+		}
+		if g := call.Call.StaticCallee(); g != nil && core.InModule(g) && g.Pkg == fn.Pkg {
+			for _, b := range blocksWithCallees(g) {
+				for _, gi := range b.Instrs {
+					if isPut16(gi) {
+						return true
+					}
+				}
+			}
+		}
+		return false
+	}
+	var profBlock *ssa.BasicBlock
+	var profIdx int
+	for _, b := range fn.Blocks {
+		for i, in := range b.Instrs {
+			if call, ok := in.(*ssa.Call); ok && isPut16(call) {
+				if loadedField(call.Call.Args[2]) == "ExtensionProfile" || fieldOfValueName(call.Call.Args[2]) == "ExtensionProfile" {
+					profBlock, profIdx = b, i
+				}
+			}
+		}
+	}
+	if profBlock == nil {
+		r.Infof("STRUCT.lenfield: profile write not recognised in Header.MarshalTo; rule not decided")
+		return 0
+	}
+	bad := ""
+	seen := map[*ssa.BasicBlock]bool{}
+	var walk func(b *ssa.BasicBlock, from int)
+	walk = func(b *ssa.BasicBlock, from int) {
+		for i := from; i < len(b.Instrs); i++ {
+			in := b.Instrs[i]
+			if writesLen(in) {
+				return
+			}
+			if ret, ok := in.(*ssa.Return); ok {
+				if len(ret.Results) > 0 && core.IsNilConst(core.Resolve(ret.Results[len(ret.Results)-1])) && bad == "" {
+					bad = p.Position(ret.Pos())
+				}
+				return
+			}
+		}
+		for _, s := range b.Succs {
+			if !seen[s] {
+				seen[s] = true
+				walk(s, 0)
+			}
+		}
+	}
+	walk(profBlock, profIdx+1)
+	r.Add("STRUCT.lenfield", core.FuncName(fn), "the extension length field is written on every success path that wrote the profile", p.Position(fn.Pos()), bad == "",
+		"the success return at "+bad+" is reachable after the profile write without the length field being written")
+	return 1
+}
+
+// fieldOfValueName: v is a field read of a struct value (value receiver): its name.
+func fieldOfValueName(v ssa.Value) string {
+	if f, ok := v.(*ssa.Field); ok {
+		return core.FieldOfValue(f)
+	}
+	return ""
+}
